@@ -438,7 +438,7 @@ impl<'a> ParserState<'a> {
         if fileid == 0 || fileid >= self.filenames.len() {
             None
         } else {
-            Some(self.filenames[fileid].to_string())
+            Some(self.filenames[fileid].include_name().to_string())
         }
     }
 
